@@ -115,6 +115,15 @@ def scenarios(quick):
                       (sv('json/race.json', 'Draft7Validator'), sv('json/race.json', 'Draft7Validator')),
                       (sv('json/athlete.json', 'Draft3Validator'), sv('json/event.json', 'Draft7Validator', ef=False))],
             variants=('sv%d' % fill,), prefill=('sv', fill))
+        if fill == 20:
+            # a call that HITS the full cache (its oldest and its newest entry) against a call that inserts a new key: the
+            # hit path and the eviction of another caller (seed C16-m: `.get` on one line, recency update on the next)
+            add('cache', [(sv(*PREFILL_SV[0]), sv('json/race.json', 'Draft7Validator')),
+                          (sv(*PREFILL_SV[19]), sv('json/race.json', 'Draft7Validator'))],
+                variants=('sv%d' % fill,), prefill=('sv', fill))
+            add('cache', [(va(*PREFILL_VA[0]), va('sample-jsons/event.json', 'json/event.json')),
+                          (va(*PREFILL_VA[19]), va('sample-jsons/event.json', 'json/event.json'))],
+                variants=('va%d' % fill,), prefill=('va', fill))
         add('cache', [(va('sample-jsons/athlete.json', 'json/athlete.json'), va('sample-jsons/event.json', 'json/event.json')),
                       (va('sample-jsons/athlete_invalid.json', 'json/athlete.json'), va('sample-jsons/event.json', 'json/event.json'))],
             variants=('va%d' % fill,), prefill=('va', fill))
